@@ -93,6 +93,28 @@ func specFn(class string) map[int64]int64 {
 
 // classify scores a lookup against the three spec columns.
 func (l *sizeLookup) classify() {
+	// a result that is the same set of possible values for every code does not depend on this
+	// parameter at all (it is computed from something else): not a lookup on it
+	{
+		desc := map[string]bool{}
+		known, amb := 0, 0
+		for _, p := range l.Pieces {
+			if !p.Known {
+				continue
+			}
+			known++
+			if p.Amb != "" {
+				amb++
+				desc["amb:"+p.Amb] = true
+			} else {
+				desc[fmt.Sprint("val:", p.Val)] = true
+			}
+		}
+		if known >= 2 && amb == known && len(desc) == 1 {
+			l.Class, l.Score = "", 0
+			return
+		}
+	}
 	best, second := 0.0, 0.0
 	for _, c := range []string{"sig", "spk", "cpk", "sprv", "cprv"} {
 		spec := specFn(c)
@@ -140,7 +162,22 @@ func tableLookups(p *an.Prog) []*sizeLookup {
 			if g, ok := m.(*ssa.Global); ok {
 				if mt, ok := g.Type().(*types.Pointer).Elem().Underlying().(*types.Map); ok {
 					if b, ok := mt.Key().Underlying().(*types.Basic); ok && b.Info()&types.IsInteger != 0 {
-						names = append(names, name)
+						// only tables that can hold sizes: integer values, or structs with an integer
+						// field (constructor tables, sets and name tables are not size lookups)
+						holdsInt := false
+						switch vt := mt.Elem().Underlying().(type) {
+						case *types.Basic:
+							holdsInt = vt.Info()&types.IsInteger != 0
+						case *types.Struct:
+							for i := 0; i < vt.NumFields(); i++ {
+								if fb, ok := vt.Field(i).Type().Underlying().(*types.Basic); ok && fb.Info()&types.IsInteger != 0 {
+									holdsInt = true
+								}
+							}
+						}
+						if holdsInt {
+							names = append(names, name)
+						}
 					}
 				}
 			}
